@@ -63,6 +63,9 @@ pub struct Report {
     pub traces_validated: u64,
     pub hist: BTreeMap<String, u64>,
     pub buckets: HashSet<u64>,
+    /// Fingerprints of distinct subject states visited by E1/E3-style families that drive a
+    /// stateful object (each exchange is a transition); BFS families count in `states` directly.
+    pub state_set: HashSet<u64>,
     pub samples: Vec<Json>,
     pub violations: Vec<Violation>,
     pub violation_count: u64,
@@ -121,6 +124,13 @@ impl Report {
     pub fn bucket<T: Hash>(&mut self, t: &T) {
         self.buckets.insert(hash_of(t));
     }
+    /// Records one executed transition of a stateful subject and the state it led to.
+    #[inline]
+    pub fn visit<T: Hash>(&mut self, state: &T) {
+        self.transitions += 1;
+        self.traces_validated += 1;
+        self.state_set.insert(hash_of(state));
+    }
     pub fn sample(&mut self, j: Json) {
         if self.samples.len() < MAX_SAMPLES {
             self.samples.push(j);
@@ -156,6 +166,7 @@ impl Report {
             *self.hist.entry(k).or_insert(0) += v;
         }
         self.buckets.extend(o.buckets);
+        self.state_set.extend(o.state_set);
         for s in o.samples {
             if self.samples.len() < MAX_SAMPLES {
                 self.samples.push(s);
@@ -192,6 +203,9 @@ impl Report {
         let mut b: Vec<u64> = self.buckets.iter().copied().collect();
         b.sort();
         b.hash(&mut h);
+        let mut st: Vec<u64> = self.state_set.iter().copied().collect();
+        st.sort();
+        st.hash(&mut h);
         self.violation_count.hash(&mut h);
         h.finish()
     }
@@ -217,7 +231,7 @@ impl Report {
         }
         Json::obj()
             .set("evaluations", self.evaluations)
-            .set("states", self.states)
+            .set("states", self.states + self.state_set.len() as u64)
             .set("transitions", self.transitions)
             .set("traces_validated_against_impl", self.traces_validated)
             .set("distinct_buckets", self.buckets.len())
